@@ -2,7 +2,8 @@
 """Regenerates /verif/MANIFEST.json from tools/checks.json (one entry per claimed property)."""
 import json, os, subprocess
 V = "/verif"
-checks = json.load(open(f"{V}/tools/checks.json"))
+import glob
+checks = [json.load(open(f)) for f in sorted(glob.glob(f"{V}/tools/checks.d/C*.json"))]
 props = [json.loads(l) for l in open(f"{V}/properties.jsonl")]
 ids = [p["id"] for p in props]
 hook_commits = subprocess.run(["git", "-C", "/repo", "log", "--format=%h %s", "--grep=^verif-hooks"], capture_output=True, text=True).stdout.strip().splitlines()
